@@ -98,7 +98,19 @@ static void check_circuit(const Circuit &big, uint64_t k, Rng &rng, Stats &st) {
             auto r = TableauSimulator<64>::reference_sample_circuit(big);
             std::vector<bool> rb;
             for (size_t i = 0; i < big.count_measurements(); i++) rb.push_back(r[i]);
-            if (bits_str(rb) != p64) out_x("reference_sample_circuit differs from bias +1 run: " + bits_str(rb) + " vs " + p64);
+            // (it simulates the fused, noiseless copy of the circuit: for a circuit object holding unfused adjacent instructions the
+            //  collapse order inside the fused instruction may differ, so compare with the bias +1 run of that copy and let the oracle
+            //  judge the record against the object itself)
+            Circuit simulated = big.aliased_noiseless_circuit();
+            std::mt19937_64 rr(0);
+            auto r2 = TableauSimulator<64>::sample_circuit(simulated, rr, +1);
+            std::vector<bool> rb2;
+            for (size_t i = 0; i < big.count_measurements(); i++) rb2.push_back(r2[i]);
+            if (rb != rb2) out_x("reference_sample_circuit differs from the bias +1 run of the noiseless circuit: " + bits_str(rb) + " vs " + bits_str(rb2));
+            if (bits_str(rb) != p64) {
+                st.hit("circuits.reference_differs_from_unfused_bias_run");
+                out_q("tsim check " + w + " " + bits_str(rb) + " -", "ok");
+            }
         }
         // random-seed runs: every record must be possible
         for (uint64_t s = 0; s < 3; s++) {
